@@ -8,9 +8,9 @@ SPEC = {
     "agrees": "C30.agrees",
     "in_domain": "C30.in_domain",
     "model_prop": "fun k => implb (C30.in_domain k) (C30.model_prop k)",
-    "n_quick": 640,
+    "n_quick": 480,
     "n_thorough": 40000,
-    "shard": 41,
+    "shard": 31,
     "rule": "see harness/props/c30.go: 18 zones x time.Local equal/UTC/other, all utils.Timeframes (1D a quarter) + ~6% unsupported durations, "
             "instants at year edges / leap days / zone transitions / local midnights +-{0,1ns,1s,1h,1d,tf}, years 1970-2261; "
             "distinct = distinct input; non-trivial = inside the guarded theorems' domain",
